@@ -182,6 +182,11 @@ def xop_defalg(node, op):
     for hname, style in handlers.items():
         body[hname] = _mk_handler(hname, style)
         decl[hname] = style
+    if base == "TR" and "terminal" not in decl:
+        # Transformer ships a default `terminal = reuse`; the model knows declared
+        # handlers only, so every harness Transformer declares `terminal` itself.
+        body["terminal"] = _mk_handler("terminal", "pre")
+        decl["terminal"] = "pre"
     body["_sim_handlers"] = decl
     cls = type(name, (bcls,), body)
     node.put(out, cls)
@@ -243,23 +248,26 @@ def xop_apply(node, op):
     """['apply', None, alg_slot, expr_slot, mode] -> {'got':..., 'want':...} for harness
     algorithms."""
     _, _, aslot, eslot, mode = op
-    alg = node.dec(aslot)
-    e = node.dec(eslot)
+    alg = node.get(aslot)
+    e = node.get(eslot)
     want = _model_apply(alg, e, mode)
     base = type(alg)._sim_base
     try:
         if base == "MF":
             if mode == "call":
-                got = alg(e, *([None] * len(e.ufl_operands)))
+                _, style = _model_handler(alg, type(e))
+                if style == "pre":
+                    got = alg(e)
+                else:
+                    got = alg(e, *([None] * len(e.ufl_operands)))
             else:
                 from ufl.corealg.map_dag import map_expr_dag
 
                 got = map_expr_dag(alg, e, compress=False)
         else:
+            # visit() always recurses for post-handlers: the model must too
+            want = _model_apply(alg, e, "map")
             got = alg.visit(e)
-            if mode == "call":
-                # visit() always recurses for post-handlers: the model must too
-                want = _model_apply(alg, e, "map")
         if not isinstance(got, str):
             got = "?" + type(got).__name__
     except BaseException as ex:  # noqa: B036
@@ -306,15 +314,38 @@ _REAL_ALGS = {
 def xop_applyreal(node, op):
     """['applyreal', None, alg_name, expr_slot] -> digest of the result or '!Type'."""
     _, _, name, eslot = op
-    e = node.dec(eslot)
+    e = node.get(eslot)
     f = _REAL_ALGS[name]
     try:
         r = f(e)
-        if isinstance(r, (Expr, BaseForm)):
-            return repr(r)
         return repr(r)
     except BaseException as ex:  # noqa: B036
+        if _is_dispatch_error(ex):
+            return "!DispatchError"
         return "!" + type(ex).__name__
+
+
+_DISPATCH_FRAMES = {
+    ("multifunction.py", "__call__"),
+    ("transformer.py", "visit"),
+    ("map_dag.py", "map_expr_dags"),
+}
+
+
+def _is_dispatch_error(ex):
+    """An IndexError/KeyError raised by the typecode lookup of the dispatcher itself (the
+    innermost frame is MultiFunction.__call__, Transformer.visit or map_expr_dags)."""
+    if not isinstance(ex, (IndexError, KeyError)):
+        return False
+    tb = ex.__traceback__
+    last = None
+    while tb is not None:
+        last = tb
+        tb = tb.tb_next
+    if last is None:
+        return False
+    co = last.tb_frame.f_code
+    return (co.co_filename.rsplit("/", 1)[-1], co.co_name) in _DISPATCH_FRAMES
 
 
 # ======================================================================= C13
